@@ -627,6 +627,187 @@ func runC17(c *h.Ctx) {
 		}
 	})
 
+	// ---- api.no_body_struct: the members of the annotated struct field are filled by a separate routine
+	// (annotation.apiNoBodyStruct), each from the first of its listed sources that has a value, else zero
+	c.Run("no-body-struct", c.N(2500, 80000), func(cs *h.Case) {
+		scalars := []*gen.Type{{T: tref.STRING}, {T: tref.STRING}, {T: tref.I32}, {T: tref.I64}, {T: tref.BOOL}, {T: tref.DOUBLE}, {T: tref.I16}, {T: tref.BYTE}}
+		kinds := []string{"query", "header", "path", "cookie"}
+		nbS := &gen.StructT{Name: "NB"}
+		var nb []hmField
+		used := map[int16]bool{}
+		for i := 0; i < 1+cs.R.Intn(6); i++ {
+			id := int16(1 + cs.R.Intn(30))
+			for used[id] {
+				id = int16(1 + cs.R.Intn(30))
+			}
+			used[id] = true
+			f := &gen.FieldT{ID: id, Name: fmt.Sprintf("M%d", i), T: scalars[cs.R.Intn(len(scalars))], Req: cs.R.Intn(3)}
+			hf := hmField{f: f}
+			seen := map[string]bool{}
+			for k := []int{0, 1, 2, 2, 3, 3}[cs.R.Intn(6)]; k > 0; k-- {
+				kind := kinds[cs.R.Intn(len(kinds))]
+				if seen[kind] {
+					continue
+				}
+				seen[kind] = true
+				key := fmt.Sprintf("n%s%d", kind[:1], i)
+				if kind == "header" {
+					key = fmt.Sprintf("X-N%d", i)
+				}
+				hf.srcs = append(hf.srcs, hmSrc{kind, key})
+			}
+			f.Annos = c17AnnoList(hf.srcs)
+			nbS.Fields = append(nbS.Fields, f)
+			nb = append(nb, hf)
+		}
+		rootS := &gen.StructT{Name: "Req", Fields: []*gen.FieldT{
+			{ID: 1, Name: "plain", T: &gen.Type{T: tref.STRING}, Req: gen.ReqOptional},
+			{ID: int16(2 + cs.R.Intn(300)), Name: "nb", T: &gen.Type{T: tref.STRUCT, S: nbS}, Req: cs.R.Intn(3), Annos: []string{`api.no_body_struct=""`}},
+		}}
+		sc := &gen.Schema{Structs: []*gen.StructT{nbS, rootS}, Root: rootS}
+		idl := sc.IDL()
+		cs.Info("idl", idl)
+		desc, _, err := ParseRoot(sc, thrift.NewDefaultOptions())
+		if err != nil {
+			cs.Viol("hm:parse-idl", "err", err)
+			return
+		}
+		ob := cs.R.Intn(16)
+		o := conv.Options{EnableHttpMapping: true, ReadHttpValueFallback: ob&1 != 0, WriteRequireField: ob&2 != 0, WriteDefaultField: ob&4 != 0, WriteOptionalField: ob&8 != 0}
+		query := url.Values{}
+		headers, cookies, params := map[string]string{}, map[string]string{}, map[string]string{}
+		have := map[string]*tref.Val{}
+		for _, hf := range nb {
+			for _, s := range hf.srcs {
+				if !cs.R.Chance(55) {
+					continue
+				}
+				v := c17Val(cs.R, hf.f.T, s.kind, true)
+				txt := c17Text(cs.R, v, hf.f.T, true)
+				if txt == "" {
+					continue
+				}
+				switch s.kind {
+				case "query":
+					query.Set(s.key, txt)
+				case "header":
+					headers[s.key] = txt
+				case "path":
+					params[s.key] = txt
+				case "cookie":
+					cookies[s.key] = txt
+				}
+				have[c17Key(s.kind, s.key)] = v
+			}
+		}
+		want := tref.Struct()
+		data := "{}"
+		if cs.R.Bool() {
+			w := c17Word(cs.R, false)
+			data = `{"plain":` + jsonQuote(w) + `}`
+			want.Fs = append(want.Fs, tref.Field{ID: 1, V: tref.Str(w)})
+		} // an unset optional field carries no bit in the requires bitmap: never written
+		wnb := tref.Struct()
+		later, multi := 0, 0
+		for _, hf := range nb {
+			if len(hf.srcs) == 0 {
+				continue // not an http-mapped member: never written by the routine
+			}
+			var found *tref.Val
+			nhave := 0
+			for i, s := range hf.srcs {
+				if v := have[c17Key(s.kind, s.key)]; v != nil {
+					nhave++
+					if found == nil {
+						found = v
+						if i > 0 {
+							later++
+						}
+					}
+				}
+			}
+			if nhave > 1 {
+				multi++
+			}
+			if found == nil {
+				found = zeroOf(hf.f.T)
+			}
+			wnb.Fs = append(wnb.Fs, tref.Field{ID: hf.f.ID, V: found.Clone()})
+		}
+		want.Fs = append(want.Fs, tref.Field{ID: rootS.Fields[1].ID, V: wnb})
+		u := "http://verif.example/nb"
+		if len(query) > 0 {
+			u += "?" + query.Encode()
+		}
+		sr, err := stdhttp.NewRequest("POST", u, bytes.NewReader([]byte(data)))
+		if err != nil {
+			cs.Cover("request_not_buildable")
+			return
+		}
+		sr.Header.Set("Content-Type", "application/json")
+		for _, k := range sortedKeys(headers) {
+			sr.Header.Set(k, headers[k])
+		}
+		for _, k := range sortedKeys(cookies) {
+			sr.AddCookie(&stdhttp.Cookie{Name: k, Value: cookies[k]})
+		}
+		for k, v := range cookies {
+			if c, err := sr.Cookie(k); err != nil || c.Value != v {
+				cs.Cover("cookie_not_representable")
+				return
+			}
+		}
+		var ps []dhttp.Param
+		for _, k := range sortedKeys(params) {
+			ps = append(ps, dhttp.Param{Key: k, Value: params[k]})
+		}
+		req, err := dhttp.NewHTTPRequestFromStdReq(sr, ps...)
+		if err != nil {
+			cs.Viol("hm:request-build", "err", err)
+			return
+		}
+		cs.Info("request", fmt.Sprintf("url=%s headers=%v cookies=%v params=%v data=%s", u, headers, cookies, params, data))
+		cs.Info("opts", fmt.Sprintf("fallback=%v wr=%v wd=%v wo=%v", o.ReadHttpValueFallback, o.WriteRequireField, o.WriteDefaultField, o.WriteOptionalField))
+		ctx := context.WithValue(context.Background(), conv.CtxKeyHTTPRequest, req)
+		cv := j2t.NewBinaryConv(o)
+		out, err := cv.Do(ctx, desc, []byte(data))
+		if err != nil {
+			cs.Viol("hm:nbs:error-on-domain", "err", err)
+			return
+		}
+		got, derr := tref.Decode(out, tref.STRUCT)
+		if derr != nil {
+			cs.Viol("hm:nbs:malformed-output", "decode-error", derr, "out", out)
+			return
+		}
+		if !tref.EqualUnordered(got, want) {
+			sig := "hm:nbs:value"
+			if g := got.FieldByID(rootS.Fields[1].ID); g != nil && g.T == tref.STRUCT {
+				for _, hf := range nb {
+					gv, wv := g.FieldByID(hf.f.ID), wnb.FieldByID(hf.f.ID)
+					if (gv == nil) != (wv == nil) || (gv != nil && !tref.EqualUnordered(gv, wv)) {
+						src := "plain"
+						if len(hf.srcs) > 0 {
+							src = ""
+							for _, s := range hf.srcs {
+								src += s.kind + ","
+							}
+						}
+						sig = fmt.Sprintf("hm:nbs:value:%s:%s", strings.TrimSuffix(src, ","), tref.TypeName(hf.f.T.T))
+						cs.Info("field", fmt.Sprintf("%s got=%v want=%v", hf.f.Name, gv, wv))
+						break
+					}
+				}
+			}
+			cs.Viol(sig, "got", got.String(), "want", want.String())
+			return
+		}
+		cs.Cover("nbs_ok")
+		cs.CoverN("nbs_member_from_later_source", later)
+		cs.CoverN("nbs_member_with_several_populated_sources", multi)
+		cs.Distinct(fmt.Sprintf("nbs-%d-%s", ob, shapeKey(want)[:min(len(shapeKey(want)), 16)]))
+	})
+
 	// ---- response side
 	c.Run("response", c.N(3000, 100000), func(cs *h.Case) {
 		mk := func(prefix string, n int, nested bool) (*gen.StructT, []hmField) {
@@ -831,4 +1012,13 @@ func runC17(c *h.Ctx) {
 		cs.Cover("response_ok")
 		cs.Distinct(fmt.Sprintf("rs-%d-%d-%v-%d", ob, len(root), metaPresent, len(delivered)))
 	})
+}
+
+func sortedKeys(m map[string]string) []string {
+	var ks []string
+	for k := range m {
+		ks = append(ks, k)
+	}
+	sort.Strings(ks)
+	return ks
 }
